@@ -142,6 +142,12 @@ def _cases():
     edges = np.array([1.0, 2.0, 4.0])
     vals = np.array([[0.5, 1.0], [1.5, 2.0], [4.0, 9.0], [np.nan, 3.999]])
     C.append(('digitize', lambda c: (npshim.digitize(sym(c, vals), sym(c, edges)), np.digitize(vals, edges))))
+    vals2 = np.array([0.5, 1.0, 1.5, 2.0, 4.0, 9.0, 3.999])
+    C.append(('digitize-right', lambda c: (npshim.digitize(sym(c, vals2), sym(c, edges), right=True), np.digitize(vals2, edges, right=True))))
+    C.append(('searchsorted-left', lambda c: (npshim.searchsorted(sym(c, edges), sym(c, vals2)), np.searchsorted(edges, vals2))))
+    C.append(('searchsorted-right', lambda c: (npshim.searchsorted(sym(c, edges), sym(c, vals2), side='right'), np.searchsorted(edges, vals2, side='right'))))
+    C.append(('isclose', lambda c: (npshim.isclose(sym(c, np.array([1.0, 1.0 + 1e-9, 2.0, 0.0])), sym(c, np.array([1.0, 1.0, 2.1, 1e-9]))), np.isclose(np.array([1.0, 1.0 + 1e-9, 2.0, 0.0]), np.array([1.0, 1.0, 2.1, 1e-9])))))
+    C.append(('ravel', lambda c: (sym(c, m23).ravel(), m23.ravel())))
 
     def setitems(c):
         out = sym(c, np.zeros(5))
